@@ -79,8 +79,25 @@ def extract(g, X):
     def lzwcfg():
         # (early_change != 0) selects with_tiff_size_switch; both decoders Msb, symbol size
         b = X.fn_body(enc, "lzw_decode")
-        m = re.search(r"if\s+\w+\.early_change\s*!=\s*0\s*\{\s*Decoder::with_tiff_size_switch\(BitOrder::Msb,\s*(\d+)\)\s*\}\s*else\s*\{\s*Decoder::new\(BitOrder::Msb,\s*(\d+)\)", b)
-        return m.group(1), m.group(2)
+        # which decoder is built, as a function of /EarlyChange: the initialiser of the decoder is evaluated for 0 and 1
+        # (`if ec != 0 {A} else {B}`, `if ec == 0 {B} else {A}`, a match …)
+        path = re.search(r"\b(\w+\.early_change)\b", b).group(1)
+        init = None
+        for m in re.finditer(r"let\s+(?:mut\s+)?(\w+)\s*=\s*", b):
+            cand = X.let_expr(b[m.start():], m.group(1)) or ""
+            if path in cand and "Decoder::" in cand:
+                init = cand
+        t = X.tabulate(re.sub(re.escape(path), "__ec", init), "__ec", enc, scopes=[b], domain=(0, 1, 2))
+
+        def size(o, ctor):
+            mm = isinstance(o.value, X.rsx.Opaque) and re.fullmatch(r"Decoder::" + ctor + r"\(\s*BitOrder::Msb,\s*(\d+)\s*\)", o.value.text)
+            if not mm or o.effects:
+                raise ValueError("decoder for /EarlyChange: %r" % (o,))
+            return mm.group(1)
+        early, plain = size(t[1], "with_tiff_size_switch"), size(t[0], "new")
+        if size(t[2], "with_tiff_size_switch") != early:
+            raise ValueError("/EarlyChange 2")
+        return early, plain
     g.attempt([("lzw_sym_early", "N"), ("lzw_sym_plain", "N")], "enc.rs:lzw_decode", lzwcfg)
 
     def pairing():
